@@ -57,12 +57,13 @@ SeedHeapOverSh  == SeedHeapOver \o << o("clone", 2, 1, 0, <<>>) >>
 SeedHeapShort   == << o("from_str", 1, 0, 0, A17), o("truncate", 1, 0, 3, <<>>) >>                              \* heap, len 3
 SeedStatic      == << o("from_static", 1, 1, 0, <<>>) >>
 SeedStaticT     == << o("from_static", 1, 1, 0, <<>>), o("truncate", 1, 0, 4, <<>>) >>                          \* static below 16
+SeedStatic16    == << o("from_static", 1, 1, 0, <<>>), o("truncate", 1, 0, 16, <<>>) >>                         \* static cut to exactly the inline size
 SeedStaticSh    == << o("from_static", 1, 1, 0, <<>>), o("clone", 2, 1, 0, <<>>) >>
 SeedInline15    == << o("from_str", 1, 0, 0, A15) >>
 SeedInline16    == << o("from_str", 1, 0, 0, A15 \o <<112>>) >>
 SeedInline16m   == << o("from_str", 1, 0, 0, M16) >>
 SeedInlineMix   == << o("from_str", 1, 0, 0, <<97>> \o E2 \o U3 \o G4) >>
-cSeedsAll == { SeedHeapUnique, SeedHeapShared, SeedHeapSharedT, SeedHeapSharedM, SeedHeapOver, SeedHeapOverSh, SeedHeapShort, SeedStatic,
+cSeedsAll == { SeedStatic16, SeedHeapUnique, SeedHeapShared, SeedHeapSharedT, SeedHeapSharedM, SeedHeapOver, SeedHeapOverSh, SeedHeapShort, SeedStatic,
                SeedStaticT, SeedStaticSh, SeedInline15, SeedInline16, SeedInline16m, SeedInlineMix, <<>> }
 cSeedsShared == { SeedHeapShared, SeedHeapSharedT, SeedHeapOverSh, SeedStaticSh }
 cSeedsIdx == { SeedHeapSharedT, SeedHeapSharedM, SeedHeapOver, SeedStatic, SeedInline16m, SeedInlineMix,
